@@ -2,7 +2,7 @@
 (* Advisory (MODEL-DRIFT) trace validation of the representation-level spec: the class indices *)
 (* read through the public get_class_static_index() after every call, and the type of the       *)
 (* exception that reports an unregistered tuple, must be what FastDispatchImpl predicts.        *)
-(* Events of other components in the same trace (static dispatcher, visitors) are skipped.      *)
+(* Events of other dispatcher kinds in the same trace are skipped.                              *)
 EXTENDS FastDispatchImpl, Json, IOUtils
 
 VARIABLE l
@@ -11,41 +11,51 @@ JsonTrace == ndJsonDeserialize(IOEnv.TRACE)
 
 TInit ==
     /\ l = 1
-    /\ cfg = [kind |-> "none", ar |-> 1, nx |-> 0, k |-> 1]
+    /\ cfg = [kind |-> "none", ar |-> 1, nx |-> 0, k |-> 1, fl |-> "exc"]
     /\ idx = [c \in 1..5 |-> MAX]
-    /\ next = 0
-    /\ cbs = <<>>
+    /\ next = 0 /\ next2 = 0
+    /\ cbs = <<>> /\ cbs2 = <<>>
+    /\ has2 = FALSE
     /\ ub = FALSE
     /\ what = ""
     /\ hist = <<>>
     /\ last = [op |-> "Init", a |-> A!NoArg, res |-> A!Void]
     /\ pre = [reg |-> <<>>]
-    /\ areg = A!ZeroReg(1, 1)
+    /\ areg = A!ZeroReg(1, 1) /\ areg2 = A!ZeroReg(1, 1)
+
+Has(a, f) == f \in DOMAIN a
+SlotOf(a) == IF Has(a, "d") THEN a.d ELSE 1
 
 TReset(e) ==
-    /\ cfg' = [kind |-> e.a.kind, ar |-> e.a.ar, nx |-> e.a.nx, k |-> e.a.k]
+    /\ cfg' = [kind |-> e.a.kind, ar |-> e.a.ar, nx |-> e.a.nx, k |-> e.a.k, fl |-> IF Has(e.a, "fl") THEN e.a.fl ELSE "exc"]
     /\ idx' = [c \in 1..5 |-> MAX]
-    /\ next' = 0 /\ cbs' = <<>> /\ ub' = FALSE /\ what' = "" /\ hist' = <<>>
+    /\ next' = 0 /\ cbs' = <<>> /\ next2' = 0 /\ cbs2' = <<>> /\ has2' = FALSE
+    /\ ub' = FALSE /\ what' = "" /\ hist' = <<>>
     /\ last' = [op |-> "Reset", a |-> e.a, res |-> A!Void]
     /\ pre' = [reg |-> <<>>]
-    /\ areg' = A!ZeroReg(e.a.ar, e.a.k)
+    /\ areg' = A!ZeroReg(e.a.ar, e.a.k) /\ areg2' = A!ZeroReg(e.a.ar, e.a.k)
 
-Fast == cfg.kind \in {"fast_dyn", "fast_static"}
-Skip == UNCHANGED <<cfg, idx, next, cbs, ub, hist, last, pre, areg>> /\ what' = ""
+(* the kinds this transcription describes, in builds where an error is an exception *)
+Fast == cfg.kind \in {"fast_dyn", "fast_static"} /\ cfg.fl = "exc"
+FOps == {"Insert", "Erase", "Dispatch", "Clone", "Take", "Drop2"}
+Skip == UNCHANGED <<cfg, idx, next, cbs, next2, cbs2, has2, ub, hist, last, pre, areg, areg2>> /\ what' = ""
 
 Apply(e) == LET a == e.a IN
     \/ e.op = "Reset" /\ TReset(e)
-    \/ e.op = "Insert"   /\ Fast /\ Insert(a.t, a.h)
-    \/ e.op = "Erase"    /\ Fast /\ Erase(a.t)
-    \/ e.op = "Dispatch" /\ Fast /\ Dispatch(a.os, a.xs)
-    \/ e.op \in {"Insert", "Erase", "Dispatch"} /\ ~Fast /\ Skip
+    \/ e.op = "Insert"   /\ Fast /\ Insert(SlotOf(a), a.t, a.h)
+    \/ e.op = "Erase"    /\ Fast /\ Erase(SlotOf(a), a.t)
+    \/ e.op = "Dispatch" /\ Fast /\ Dispatch(SlotOf(a), a.os, a.xs)
+    \/ e.op = "Clone"    /\ Fast /\ Clone(a.how)
+    \/ e.op = "Take"     /\ Fast /\ Take(a.how)
+    \/ e.op = "Drop2"    /\ Fast /\ Drop2
+    \/ e.op \in FOps /\ ~Fast /\ Skip
     \/ e.op \in {"Static", "StaticSym", "Accept", "Cyclic"} /\ Skip
 
 TNext ==
     /\ l <= Len(JsonTrace)
     /\ LET e == JsonTrace[l] IN
         /\ Apply(e)
-        /\ (Fast' /\ e.op \in {"Reset", "Insert", "Erase", "Dispatch"}) =>
+        /\ (Fast' /\ e.op \in FOps \cup {"Reset"}) =>
               /\ [c \in 1..5 |-> idx'[c]] = e.l2.idx
               /\ (e.op = "Dispatch" => what' = e.l2.what)
               /\ ~ub'
